@@ -239,6 +239,40 @@ PROPS["C04"] = {
 }
 
 
+def fail_oracle(pid, res, driver):
+    findings = []
+    data = res.stream_data.get("FAIL")
+    if data:
+        for c, o in zip(data["cases"], data["impl"].get("debug", [])):
+            t = o.split(" ")
+            m = re.search(r"k=(\d+) total=(\d+) accepted=(\d+)", o)
+            if len(t) > 1 and t[1] == "panic" or "no-output" in o:
+                findings.append({"case": c[:3000], "impl": o[:200], "why": "write panicked (or aborted) when the sink failed"})
+            elif m:
+                k, total, acc = int(m.group(1)), int(m.group(2)), int(m.group(3))
+                exp = "err-sink" if k < total else "ok"
+                if t[1] != exp or acc != min(k, total):
+                    findings.append({"case": c[:3000], "impl": o[:200], "why": "sink failing at call %d of %d: expected %s with %d accepted calls" % (k, total, exp, min(k, total))})
+    return findings
+
+
+FAIL_STREAM = {"name": "FAIL", "quick": 600, "thorough": 9000, "profiles": ["debug"], "augment": True,
+               "nontrivial": lambda c, o: " err-sink " in o and "accepted=0" not in o}
+
+PROPS["C12"] = {
+    "coq": "theories/Props/C12.v",
+    "theorems": ["C12_failing_sink", "C12_expansion_preserves_bits"],
+    "streams": [FAIL_STREAM],
+    "rule": "FAIL: streams from the ENC generator (<= 1500 samples; all subframe kinds; frames precomputed (multi-thread) or not) "
+            "written to a user sink implementing only the required methods that fails at call k, k absolute 0..59 or at a "
+            "per-mille position of the total call count incl. exactly the end. Observable: verdict (ok / err-sink / panic), number "
+            "and digest of accepted calls, number of accepted bits. Non-trivial = failure after at least one accepted call.",
+    "oracle": fail_oracle,
+    "assumptions": ["the operation sequence a component sends to the caller's sink (stream_ops) is part of the hand-written model, tied by "
+                    "the call digest in the FAIL stream"],
+}
+
+
 def check_coq(pid, spec, res):
     """Build the proofs; returns True when the property's theorems are all checked."""
     closure = fv.dep_closure(spec["coq"])
